@@ -622,7 +622,69 @@ class _CanonAug(ast.NodeTransformer):
         return ast.copy_location(new, n)
 
 
+def _propagate_constants(modules: dict) -> int:
+    """A module-level `NAME = <int | bytes | str literal>` that is bound exactly once and never declared
+    `global` is a named constant: its uses inside functions (of the same module, or of a module that imports
+    it with `from .mod import NAME`) are read as the literal.  Makes the rules indifferent to "give the magic
+    number a name" refactors.  Identity on a tree without such constants."""
+    consts: dict[str, dict[str, ast.Constant]] = {}
+    for mn, m in modules.items():
+        counts: dict[str, int] = {}
+        vals: dict[str, ast.Constant] = {}
+        for st in m.tree.body:
+            tg = None
+            if isinstance(st, ast.Assign) and len(st.targets) == 1 and isinstance(st.targets[0], ast.Name):
+                tg, v = st.targets[0].id, st.value
+            elif isinstance(st, ast.AnnAssign) and isinstance(st.target, ast.Name) and st.value is not None:
+                tg, v = st.target.id, st.value
+            if tg is None:
+                continue
+            counts[tg] = counts.get(tg, 0) + 1
+            if isinstance(v, ast.Constant) and type(v.value) in (int, bytes, str):
+                vals[tg] = v
+        rebound = set()
+        for n in ast.walk(m.tree):
+            if isinstance(n, ast.Global):
+                rebound |= set(n.names)
+            if isinstance(n, (ast.AugAssign,)) and isinstance(n.target, ast.Name):
+                rebound.add(n.target.id)
+        consts[mn] = {k: v for k, v in vals.items() if counts.get(k) == 1 and k not in rebound}
+    done = 0
+    for mn, m in modules.items():
+        visible = dict(consts.get(mn, {}))
+        for n in ast.walk(m.tree):
+            if isinstance(n, ast.ImportFrom) and n.level >= 1 and n.module in consts:
+                for al in n.names:
+                    if al.name in consts[n.module]:
+                        visible[al.asname or al.name] = consts[n.module][al.name]
+        if not visible:
+            continue
+        for fn in [x for x in ast.walk(m.tree) if isinstance(x, (ast.FunctionDef, ast.AsyncFunctionDef))]:
+            local = {a.arg for a in fn.args.posonlyargs + fn.args.args + fn.args.kwonlyargs}
+            if fn.args.vararg:
+                local.add(fn.args.vararg.arg)
+            if fn.args.kwarg:
+                local.add(fn.args.kwarg.arg)
+            for x in ast.walk(fn):
+                if isinstance(x, ast.Name) and isinstance(x.ctx, (ast.Store, ast.Del)):
+                    local.add(x.id)
+            names = {k for k in visible if k not in local}
+            if not names:
+                continue
+
+            class Sub(ast.NodeTransformer):
+                def visit_Name(self, x):
+                    nonlocal done
+                    if isinstance(x.ctx, ast.Load) and x.id in names:
+                        done += 1
+                        return ast.copy_location(ast.Constant(value=visible[x.id].value), x)
+                    return x
+            fn.body = [Sub().visit(b) for b in fn.body]
+    return done
+
+
 def normalise(modules: dict) -> dict:
+    nconst = _propagate_constants(modules)
     n = 0
     for m in modules.values():
         c = _CanonAug()
@@ -630,4 +692,5 @@ def normalise(modules: dict) -> dict:
         n += c.count
     notes = Inliner(modules).run()
     notes['aug_canonicalised'] = n
+    notes['constants_propagated'] = nconst
     return notes
